@@ -13,6 +13,7 @@ import re
 from vlib import rustlex as rl
 from vlib.gen import make_r_fmt, make_r_sub, make_r_tailbind, r_unit_tail, r_dynw, split_top, parse_fmt, Ctx
 from vlib.rustlex import Unsupported, LostAnchor
+from vlib.gen import split_top as gen_split_top
 
 T = "src/types.rs"
 P = ["C04"]
@@ -161,7 +162,58 @@ PREPARE_PROOF = '''proof {
 }'''
 
 
+def check_quoted_flows(u):
+    """Call-graph fact used by C04 (checked syntactically on every run): the text returned by Iden::quoted(q) - the name with
+    its quote characters doubled - goes straight into a write!(..) between q.left() and q.right().  If it is stored anywhere
+    else (e.g. handed to a builder that quotes it again) the contracts of this unit no longer describe what reaches the
+    engine: UNDECIDED, and the bounded search over identifier positions decides."""
+    for p in sorted(glob.glob(os.path.join(u.repo, "src", "**", "*.rs"), recursive=True)):
+        rel = os.path.relpath(p, u.repo)
+        src = u.src(rel)
+        if ".quoted(" not in src:
+            continue
+        code = rl.code_toks(rl.lex(src))
+        spans = []
+        for k, t in enumerate(code):
+            if t.kind == "ident" and t.text in ("write", "format") and k + 2 < len(code) and code[k + 1].text == "!" and code[k + 2].text == "(":
+                spans.append((code[k + 2].start, code[rl.match_close(code, k + 2)].end))
+        for k, t in enumerate(code):
+            if t.kind == "ident" and t.text == "quoted" and k > 0 and code[k - 1].text == "." and k + 2 < len(code) and code[k + 1].text == "(" and code[k + 2].text != ")":
+                if not any(a <= t.start < b for a, b in spans):
+                    line = src.count("\n", 0, t.start) + 1
+                    raise Unsupported("%s:%d: the result of `.quoted(..)` is not written directly by write!(..) - an escaped name may be escaped again or stored" % (rel, line))
+
+
+def check_prepare_quote_arg(u):
+    """Second call-graph fact used by C04 (syntactic, every run): inside the backends every `x.prepare(writer, q)` passes the
+    backend's own quote, `self.quote()`, whose value is verified below per backend.  Anything else (a constant quote, another
+    backend's) leaves this unit's reach: UNDECIDED, the bounded search over identifier positions decides."""
+    n = 0
+    for sub in ("backend", "extension"):
+        for p in sorted(glob.glob(os.path.join(u.repo, "src", sub, "**", "*.rs"), recursive=True)):
+            rel = os.path.relpath(p, u.repo)
+            src = u.src(rel)
+            if ".prepare(" not in src:
+                continue
+            code = rl.code_toks(rl.lex(src))
+            for k, t in enumerate(code):
+                if t.kind == "ident" and t.text == "prepare" and k > 0 and code[k - 1].text == "." and k + 1 < len(code) and code[k + 1].text == "(":
+                    close = rl.match_close(code, k + 1)
+                    args = gen_split_top(src[code[k + 1].end:code[close].start])
+                    if len(args) != 2:
+                        continue   # not Iden::prepare(writer, quote)
+                    n += 1
+                    if rl.norm_ws(args[1]) != "self.quote()":
+                        line = src.count("\n", 0, t.start) + 1
+                        raise Unsupported("%s:%d: Iden::prepare is called with quote `%s`, not `self.quote()`" % (rel, line, rl.norm_ws(args[1])))
+    if n == 0:
+        raise LostAnchor("no Iden::prepare(writer, quote) call found under src/backend - the call-graph check lost its anchor")
+    return n
+
+
 def build(u):
+    check_quoted_flows(u)
+    check_prepare_quote_arg(u)
     u.emit("use vstd::prelude::*;\nverus! {\n")
     u.prelude_file("vlib/prelude/vfmt.rs")
     u.prelude_file("vlib/prelude/vstr.rs")
